@@ -21,7 +21,8 @@ import (
 
 type serveConn struct {
 	// State the connection is brought to before the stop: 0 idle (accepted, no RPC), 1 handler blocked
-	// in Recv, 2 handler blocked in Send (client not reading, transport stalled), 3 RPC finished
+	// in Recv, 2 handler blocked in Send (client not reading, transport stalled), 3 RPC finished, 4 RPC finished and
+	// the client has gone away (the server side's manager has shut itself down before the stop)
 	State int
 }
 
@@ -34,6 +35,9 @@ type c12ServeCase struct {
 	// stop happens (otherwise Serve is held right after Accept returned)
 	InAccept bool
 	Choices  []int
+	// SlowClose: closing a server-side transport takes time (its Close is held after the pending I/O was let go until
+	// the harness has looked whether Serve returned meanwhile)
+	SlowClose bool
 }
 
 type blockHandler struct{ started chan string }
@@ -92,6 +96,7 @@ func runC12Serve(c c12ServeCase) (r pbt.Result) {
 	type atReturn struct {
 		err        error
 		closes     []int
+		closesDone []int
 		serveOnes  int
 		returnedAt int64
 	}
@@ -101,6 +106,7 @@ func runC12Serve(c c12ServeCase) (r pbt.Result) {
 		ar := atReturn{err: err}
 		for _, c := range lis.Accepted() {
 			ar.closes = append(ar.closes, c.(*sim.End).Closes())
+			ar.closesDone = append(ar.closesDone, c.(*sim.End).ClosesDone())
 		}
 		for _, g := range sim.Snapshot() {
 			if !inherited[g.ID] && strings.Contains(g.Frames, "drpcserver.(*Server).ServeOne") {
@@ -148,8 +154,20 @@ func runC12Serve(c c12ServeCase) (r pbt.Result) {
 		done   chan error
 	}
 	var calls []call
+	releaseClose := make(chan struct{})
+	released := false
+	release := func() {
+		if !released {
+			released = true
+			close(releaseClose)
+		}
+	}
+	defer release()
 	for _, sc := range c.Conns {
 		a, b := sim.Pipe(&clock)
+		if c.SlowClose {
+			b.OnClosing = func() { <-releaseClose }
+		}
 		p := &pair{a: a, b: b}
 		pairs = append(pairs, p)
 		offered := make(chan bool, 1)
@@ -185,13 +203,17 @@ func runC12Serve(c c12ServeCase) (r pbt.Result) {
 				}
 				cl.done <- err
 			}()
-		case 3:
+		case 3, 4:
 			go func() {
 				in, out := []byte("ping"), []byte(nil)
 				cl.done <- p.conn.Invoke(cctx, "echo", sim.RawEnc{}, &in, &out)
 			}()
 		}
 		pump()
+		if sc.State == 4 {
+			go p.conn.Close()
+			pump()
+		}
 	}
 	pump()
 	var latePair *pair
@@ -212,6 +234,9 @@ func runC12Serve(c c12ServeCase) (r pbt.Result) {
 			releaseAccept = lis.HoldNextAccept()
 		}
 		a, b := sim.Pipe(&clock)
+		if c.SlowClose {
+			b.OnClosing = func() { <-releaseClose }
+		}
 		latePair = &pair{a: a, b: b}
 		go func() { lateOffered <- lis.Offer(b) }()
 		sim.WaitQuiescent()
@@ -243,6 +268,26 @@ func runC12Serve(c c12ServeCase) (r pbt.Result) {
 	pump()
 	sim.WaitQuiescent()
 	var ar atReturn
+	if c.SlowClose {
+		// every Close of a server-side transport that has begun is still in progress. Serve may not have returned
+		// unless no accepted connection needed closing.
+		select {
+		case ar = <-retCh:
+			for i, n := range ar.closesDone {
+				if n != 1 {
+					fail("Serve returned while the Close of an accepted connection's transport was still in progress")
+					r.Detailf("conn %d: Close calls begun %d, returned %d", i, ar.closes[i], n)
+					return
+				}
+			}
+			retCh <- ar
+		default:
+		}
+		release()
+		pump()
+		sim.WaitQuiescent()
+		r.Label("slow_close")
+	}
 	select {
 	case ar = <-retCh:
 	default:
@@ -330,8 +375,9 @@ func runC12Serve(c c12ServeCase) (r pbt.Result) {
 func TestC12Serve(t *testing.T) {
 	gen := func(t *rapid.T) c12ServeCase {
 		c := c12ServeCase{Soft: rapid.Bool().Draw(t, "soft"), Stop: rapid.SampledFrom([]string{"ctx", "ctx", "listener"}).Draw(t, "stop"), Pending: rapid.Bool().Draw(t, "pending")}
-		c.Conns = rapid.SliceOfN(rapid.Custom(func(t *rapid.T) serveConn { return serveConn{State: rapid.IntRange(0, 3).Draw(t, "state")} }), 0, 3).Draw(t, "conns")
+		c.Conns = rapid.SliceOfN(rapid.Custom(func(t *rapid.T) serveConn { return serveConn{State: rapid.IntRange(0, 4).Draw(t, "state")} }), 0, 3).Draw(t, "conns")
 		c.InAccept = c.Pending && rapid.Bool().Draw(t, "inaccept")
+		c.SlowClose = rapid.Bool().Draw(t, "slowclose")
 		return c
 	}
 	pbt.Check(t, pbt.Prop[c12ServeCase]{ID: "C12", Name: "serve", Gen: gen, Run: runC12Serve})
